@@ -12,8 +12,8 @@ from common import Check, main_wrapper
 def main():
     ck = Check("C03", "translation_validation")
     ck.lean_stage(["VelaVerif.Props.C03"])
-    outs, lines, owners, answers = stream_checks.run(ck, "C03", 54, 900,
-                                                     ["cascade", "cascade_chain", "weights", "lut", "elementwise", "mixed", "cascade_chain", "cpu"])
+    outs, lines, owners, answers = stream_checks.run(ck, "C03", 320, 6000,
+                                                     ["cascade", "cascade_chain", "weights", "lut", "elementwise", "mixed", "pattern", "cpu", "pattern", "pattern"])
     programs = 0
     nontrivial = set()
     rejected = 0
